@@ -275,6 +275,113 @@ func jobC07(c *rt.Ctx) {
 			}
 		}
 	}
+	// refusal x content: an option set that must be refused (over-long context, pre-hash selected with a
+	// message that is not 64 bytes, unsupported hash) is refused WHATEVER the other arguments hold - a
+	// 64-byte signature with S >= L, an undecodable or small-order R or key: no argument content may
+	// turn the refusal into an ordinary "false"
+	c.Require("refusal-cross")
+	{
+		long := strings.Repeat("k", 256)
+		type ro struct {
+			name string
+			o    Options
+			msg  []byte
+			what string // batch behaviour: "error" or "false"
+		}
+		ros := []ro{
+			{"ctx256", Options{Context: long}, digest, "error"},
+			{"ph+ctx256", Options{Hash: crypto.SHA512, Context: long}, digest, "error"},
+			{"ctx300+zip", Options{Context: strings.Repeat("z", 300), ZIP215Verify: true}, digest, "error"},
+			{"ph-digest63", Options{Hash: crypto.SHA512}, digest[:63], "false"},
+			{"ph-digest65", Options{Hash: crypto.SHA512, Context: "c"}, append(append([]byte{}, digest...), 1), "false"},
+			{"ph-digest0+zip", Options{Hash: crypto.SHA512, ZIP215Verify: true}, []byte{}, "false"},
+			{"sha256", Options{Hash: crypto.SHA256}, digest, "false"},
+			{"hash99+zip", Options{Hash: crypto.Hash(99), ZIP215Verify: true}, digest, "false"},
+		}
+		base := modelTriple(60, digest, vPure)
+		und := firstUndecodable()
+		type tk struct {
+			name string
+			mk   func() (key, sig []byte)
+		}
+		cp := func(b []byte) []byte { return append([]byte{}, b...) }
+		withS := func(S []byte) []byte { return append(cp(base.sig[:32]), S...) }
+		tks := []tk{
+			{"honest-pure", func() ([]byte, []byte) { return cp(base.key), cp(base.sig) }},
+			{"S=L", func() ([]byte, []byte) { return cp(base.key), withS(ref.ToLE(ref.L, 32)) }},
+			{"S=ff", func() ([]byte, []byte) { return cp(base.key), withS(bytes.Repeat([]byte{0xff}, 32)) }},
+			{"S=0", func() ([]byte, []byte) { return cp(base.key), withS(make([]byte, 32)) }},
+			{"S+L", func() ([]byte, []byte) {
+				return cp(base.key), withS(ref.ToLE(new(big.Int).Add(ref.LE(base.sig[32:]), ref.L), 32))
+			}},
+			{"R-undecodable", func() ([]byte, []byte) { return cp(base.key), append(cp(und), base.sig[32:]...) }},
+			{"R-small", func() ([]byte, []byte) { return cp(base.key), append(cp(ref.Encodings(ref.Torsion(4))[0]), base.sig[32:]...) }},
+			{"key-small", func() ([]byte, []byte) { return cp(ref.Encodings(ref.Torsion(0))[0]), cp(base.sig) }},
+			{"key-undecodable", func() ([]byte, []byte) { return cp(und), cp(base.sig) }},
+			{"all-zero", func() ([]byte, []byte) { return make([]byte, 32), make([]byte, 64) }},
+			{"all-ff", func() ([]byte, []byte) { return bytes.Repeat([]byte{0xff}, 32), bytes.Repeat([]byte{0xff}, 64) }},
+		}
+		for ri, r := range ros {
+			for ti, k := range tks {
+				if !c.Take() {
+					continue
+				}
+				c.Class("refusal-cross")
+				c.Distinct(fmt.Sprintf("refcross %d %d", ri, ti), true)
+				key, sig := k.mk()
+				o := r.o
+				fail := func(api, what string) {
+					c.Violation(fmt.Sprintf("C07 refusal-cross api=%s options=%s", api, r.name), fmt.Sprintf("%s with options %s and a %s signature/key: %s", api, r.name, k.name, what),
+						map[string]interface{}{"options": r.name, "content": k.name, "key": ref.Hex(key), "sig": ref.Hex(sig), "msg_len": len(r.msg)})
+				}
+				ok, pv := func() (ok bool, pv interface{}) {
+					defer func() { pv = recover() }()
+					return VerifyWithOptions(key, r.msg, sig, &o), nil
+				}()
+				c.Step(1)
+				if pv == nil {
+					fail("VerifyWithOptions", fmt.Sprintf("returned %v instead of refusing the options with a panic", ok))
+				}
+				for _, n := range []int{1, 3, 4, 5, 68} {
+					pubs := make([]PublicKey, n)
+					msgs := make([][]byte, n)
+					sigs := make([][]byte, n)
+					for i := 0; i < n; i++ {
+						pubs[i], msgs[i], sigs[i] = base.key, r.msg, base.sig
+					}
+					pubs[n/2], sigs[n/2] = key, sig
+					all, valid, berr, bpv := func() (a bool, v []bool, e error, pv interface{}) {
+						defer func() { pv = recover() }()
+						a, v, e = VerifyBatch(rt.NewRng(1, "x"), pubs, msgs, sigs, &o)
+						return
+					}()
+					c.Step(1)
+					switch {
+					case bpv != nil:
+						fail("VerifyBatch", fmt.Sprintf("panicked (n=%d): %v", n, bpv))
+					case r.what == "error" && (berr == nil || all || valid != nil):
+						fail("VerifyBatch", fmt.Sprintf("n=%d: expected an error and no result, got all=%v valid=%v err=%v", n, all, valid, berr))
+					case r.what == "false":
+						bad := berr != nil || all || len(valid) != n
+						for _, v := range valid {
+							bad = bad || v
+						}
+						if bad {
+							fail("VerifyBatch", fmt.Sprintf("n=%d: expected every entry false without an error, got all=%v valid=%v err=%v", n, all, valid, berr))
+						}
+					}
+				}
+				if ti == 0 {
+					so := r.o
+					s2, serr := priv.Sign(nil, r.msg, &so)
+					c.Step(1)
+					if serr == nil || s2 != nil {
+						fail("Sign", "signed under options that must be refused")
+					}
+				}
+			}
+		}
+	}
 	// context CONTENT: bytes that mean something to formatting, templating, C strings, UTF-8 or shells are
 	// just bytes here. Sign == RFC 8032 (model), the model's signature verifies, single and in a batch
 	c.Require("ctx-content")
